@@ -2331,6 +2331,20 @@ fn eval_int_binop(
                 ));
             }
 
+            // `checked_pow` takes a u32 exponent. A larger exponent only
+            // has a representable result for bases 0, 1 and -1.
+            if rhs_num > u32::MAX as i64 && (-1..=1).contains(&lhs_num) {
+                let num = if lhs_num == -1 && rhs_num % 2 == 0 {
+                    1
+                } else {
+                    lhs_num
+                };
+                if expr_value_is_used {
+                    env.push_value(Value::new(Value_::Int(num)));
+                }
+                return Ok(());
+            }
+
             if rhs_num > u32::MAX as i64 {
                 return Err((
                     RestoreValues(vec![lhs_value.clone(), rhs_value.clone()]),
